@@ -320,6 +320,19 @@ func c13BinaryStreams(quick bool) []c13Stream {
 		ops[fmt.Sprintf("execute-stage%d", stage)] = protocol.NewLockCommandDataExecuteData(exec, stage).Data
 		ops[fmt.Sprintf("execute-stage%d-short", stage)] = []byte{10, 0, 0, 0, stage<<6 | 5, 0, 0x56, 1, 1, 0, 0, 0, 0, 0}
 	}
+	// EXECUTE frames whose embedded command itself claims to carry a value frame: every short / truncated form
+	execD := &protocol.LockCommand{}
+	execD.Magic, execD.Version, execD.CommandType, execD.Flag = protocol.MAGIC, protocol.VERSION, 1, 0x20
+	execD.LockKey[15], execD.LockId[15], execD.Expried = 78, 78, 5
+	eb := make([]byte, 64)
+	_ = execD.Encode(eb)
+	for stage := uint8(0); stage < 4; stage++ {
+		for vi, nested := range [][]byte{{}, {0}, {0, 0, 0, 0}, {1, 0, 0, 0}, {1, 0, 0, 0, 0}, {2, 0, 0, 0, 0}, {2, 0, 0, 0, 0, 0}, {3, 0, 0, 0, 0, 0x10, 9}, {8, 0, 0, 0, 0, 0}, {0xff, 0xff, 0xff, 0x7f, 0, 0}, {0xff, 0xff, 0xff, 0xff, 0, 0}, protocol.NewLockCommandDataSetString("v").Data} {
+			body := append(append([]byte{}, eb...), nested...)
+			n := 2 + len(body)
+			ops[fmt.Sprintf("execute-stage%d-nested-data%d", stage, vi)] = append([]byte{byte(n), byte(n >> 8), 0, 0, stage<<6 | 5, 0}, body...)
+		}
+	}
 	for name, d := range ops {
 		for state, setup := range setupVals {
 			for _, t := range []uint8{1, 2} {
@@ -338,7 +351,7 @@ func c13BinaryStreams(quick bool) []c13Stream {
 	}
 	// CALL frames: registered and unknown method names, content lengths
 	for _, m := range []string{"", "LIST_LOCK", "LIST_LOCKED", "LIST_WAIT", "x", strings.Repeat("m", 38), strings.Repeat("m", 39)} {
-		for _, content := range [][]byte{nil, {0}, {0x08, 0x00}, {0x08, 0x01, 0x12, 0x01, 0x61}, {0xff, 0xff, 0xff, 0xff}} {
+		for _, content := range [][]byte{nil, {0}, {0x08, 0x00}, {0x08, 0x01, 0x12, 0x01, 0x61}, {0xff, 0xff, 0xff, 0xff}, {0x08, 0xff, 0x01}, {0x08, 0x80, 0x02}, {0x08, 0xac, 0x02, 0x12, 0x01, 0x61}, {0x08, 0xff, 0xff, 0xff, 0xff, 0x0f}} {
 			cc := protocol.NewCallCommand(m, content)
 			b := make([]byte, 64)
 			_ = cc.Encode(b)
@@ -413,6 +426,26 @@ func c13TextStreams(quick bool) []c13Stream {
 			bin = append(bin, wire.BinFrame(hapi.Cmd{Type: 2, Req: byte(i), DB: 2, Key: byte(i), Id: byte(i)}))
 		}
 		out = append(out, c13Stream{Name: fmt.Sprintf("bin/hold-%d-then-release", n), Chunks: bin})
+	}
+	// text reads of a value that a binary client stored with a kind flag (array / key-value / property header) and
+	// inner lengths of its own choosing
+	for vi, val := range [][]byte{
+		{0, 0x02, 0xff, 0xff, 0xff, 0x7f, 'a'},                  // array, element length beyond the value
+		{0, 0x02, 1, 0, 0, 0},                                  // array, element announced but missing
+		{0, 0x02, 1, 0, 0},                                     // array, truncated length
+		{0, 0x04, 0xff, 0, 0, 0, 'k'},                          // key-value, key length beyond the value
+		{0, 0x04, 1, 0, 0, 0, 'k', 0xff, 0xff, 0, 0, 'v'},      // key-value, value length beyond the value
+		{0, 0x04, 1, 0, 0, 0, 'k', 1, 0},                       // key-value, truncated value length
+		{0, 0x10, 0xff, 0xff, 1, 2},                            // property header longer than the value
+		{0, 0x12, 4, 0, 1, 1, 0, 'p', 0xff, 0xff, 0xff, 0x7f}, // property + array with a wild element length
+		{0, 0x01, 1, 2, 3},                                     // number shorter than 8 bytes
+	} {
+		n := len(val)
+		frameV := append([]byte{byte(n), byte(n >> 8), 0, 0}, val...)
+		setup := wire.BinFrame(hapi.Cmd{Type: 1, Req: 1, Key: 'g', Id: 1, Expried: 60, Data: frameV})
+		for _, cmd := range [][]string{{"GET", "g"}, {"STRLEN", "g"}, {"TYPE", "g"}, {"DUMP", "g"}, {"EXISTS", "g"}, {"KEYS", "*"}, {"SCAN", "0"}, {"TTL", "g"}, {"INCR", "g"}, {"APPEND", "g", "x"}, {"GETSET", "g", "y"}, {"LOCK", "g", "LOCK_ID", "z", "TIMEOUT", "0", "EXPRIED", "5"}, {"DEL", "g"}} {
+			out = append(out, c13Stream{Name: fmt.Sprintf("text/read-of-binary-value%d/%s", vi, cmd[0]), Setup: [][]byte{setup}, Chunks: [][]byte{wire.Resp(cmd...)}})
+		}
 	}
 	// malformed RESP
 	for i, raw := range []string{"*\r\n", "*-1\r\n", "*0\r\n", "*1\r\n$-1\r\n", "*1\r\n$5\r\nab\r\n", "*2\r\n$3\r\nGET\r\n", "*99999999999\r\n", "$3\r\nGET\r\n", "GET k\r\n", "GET k\n", "\r\n", "*1\r\n$99999999999\r\n", "*1\r\n$3\rGET\r\n", "*1\n$3\nGET\n", "\x00\x00\x00\x00", "*1\r\n$4\r\nPING\r\n*1\r\n$4\r\nPING\r\n", "+OK\r\n", ":1\r\n", "-ERR x\r\n", strings.Repeat("A", 70), strings.Repeat("*1\r\n", 20)} {
